@@ -804,11 +804,13 @@ func (p *Path) cover(tag string) {
 // ------------------------------------------------------------------ helpers
 
 func (p *Path) goPanic(v Value) {
+	p.ensureFeasible() // a panic on a path whose assumptions cannot hold is not one (feasibility after Assume is checked lazily)
 	panic(targetPanic{v})
 }
 
 // goPanicRuntime raises a Go runtime error inside the interpreted program.
 func (p *Path) goPanicRuntime(msg string) {
+	p.ensureFeasible()
 	if p.curFr != nil {
 		msg += " (in " + p.curFr.fn.String() + ")"
 	}
